@@ -343,6 +343,9 @@ func (c *Client) Connect() error {
 
 // Register sends a REGISTER packet to the MQTT-SN gateway.
 func (c *Client) Register(topic string) error {
+	if len(topic) > pkts1.MaxPayloadLength {
+		return fmt.Errorf("topic name too long for an MQTT-SN packet: %d B", len(topic))
+	}
 	msgID, _ := c.msgID.Next()
 	transaction := newRegisterTransaction(c, msgID, topic)
 	register := pkts1.NewRegister(0, topic)
@@ -362,6 +365,9 @@ func (c *Client) Register(topic string) error {
 }
 
 func (c *Client) subscribe(topicName string, topicIDType uint8, topicID uint16, qos uint8, callback MessageHandlerFunc) error {
+	if len(topicName) > pkts1.MaxPayloadLength {
+		return fmt.Errorf("topic name too long for an MQTT-SN packet: %d B", len(topicName))
+	}
 	msgID, _ := c.msgID.Next()
 	transaction := newSubscribeTransaction(c, msgID, callback)
 	subscribe := pkts1.NewSubscribe(topicName, topicID, false, qos, topicIDType)
@@ -398,6 +404,9 @@ func (c *Client) SubscribePredefined(topicID uint16, qos uint8, callback Message
 }
 
 func (c *Client) unsubscribe(topicName string, topicIDType uint8, topicID uint16) error {
+	if len(topicName) > pkts1.MaxPayloadLength {
+		return fmt.Errorf("topic name too long for an MQTT-SN packet: %d B", len(topicName))
+	}
 	msgID, _ := c.msgID.Next()
 	transaction := newUnsubscribeTransaction(c, msgID)
 	unsubscribe := pkts1.NewUnsubscribe(topicName, topicID, topicIDType)
@@ -432,6 +441,11 @@ func (c *Client) UnsubscribePredefined(topicID uint16) error {
 }
 
 func (c *Client) publish(topicIDType uint8, topicID uint16, qos uint8, retain bool, payload []byte) error {
+	// MQTT-SN has no fragmentation: the message must fit into one datagram
+	// (see pkts1.MaxPacketLen).
+	if len(payload) > pkts1.MaxPayloadLength {
+		return fmt.Errorf("payload too long for an MQTT-SN packet: %d B", len(payload))
+	}
 	publish := pkts1.NewPublish(topicID, payload, false, qos, retain, topicIDType)
 	msgID, _ := c.msgID.Next()
 	publish.SetMessageID(msgID)
